@@ -23,7 +23,7 @@ SeqOf(x) == "Seq" \o x
 (* packaging sorts: Pair = (Int, Int); Rec = {k1: Int, k2: Int}; Nest = (Pair, Int);  *)
 (* RecP = {k1: Pair, k2: Int}; PS = (SeqJet, Int)                                     *)
 PackSorts == {"Pair", "Rec", "Nest", "RecP", "PS"}
-ElemSorts == ObjSorts \cup {"Int"} \cup (IF Fam \in {"chain", "chain1"} THEN PackSorts ELSE {})
+ElemSorts == ObjSorts \cup {"Int"} \cup (IF Fam \in {"chain", "chain1", "chainx"} THEN PackSorts ELSE {})
 SeqSorts == {SeqOf(x) : x \in ElemSorts}
 Elem(sq) == CHOOSE x \in ElemSorts : SeqOf(x) = sq
 IsSeqSort(s) == s \in SeqSorts
@@ -35,7 +35,7 @@ Fields == { <<"Evt", "met", "Int">>, <<"Evt", "n", "Int">>, <<"Evt", "jets", "Se
 
 (* ------------------------------------------------------------------ *)
 (* production families                                                *)
-Binders == CASE Fam \in {"fuse1", "chain1", "md1"} -> {"x"}
+Binders == CASE Fam \in {"fuse1", "chain1", "md1", "chainx"} -> {"x"}
              [] OTHER -> {"x", "y"}
 
 Enabled(prod) ==
@@ -56,7 +56,7 @@ Enabled(prod) ==
                                     "Add", "Beta"}
       [] Fam = "agg"   -> prod \in {"Select", "Where", "SelectMany", "Count", "Len", "Sum", "Max", "Min",
                                     "Add", "Cmp", "First"}
-      [] Fam \in {"chain", "chain1"} ->
+      [] Fam \in {"chain", "chain1", "chainx"} ->
                           prod \in {"Select", "Where", "SelectMany", "Cmp", "Add", "Pack", "Count"}
       [] Fam = "meth"  -> prod \in {"Select", "Where", "SelectMany", "First", "Count", "Cmp", "Add", "Sum",
                                     "MethArgs", "OtherMeth", "KwOp"}
@@ -88,9 +88,20 @@ ProjRefs(s, ns, ss) ==
              [] OTHER -> {} :
            i \in {j \in 1..Len(ns) : Visible(ns, j)}}
 
+BadProjRefs(s, ns, ss) ==
+    IF s # "Int" \/ Fam # "chainx" THEN {} ELSE
+    UNION {LET v == Name(ns[i])  vs == ss[i].s IN
+           CASE vs = "Pair" -> {Sub(v, UnOp("-", IntC(1))), Sub(v, BinOp("%", Sub(v, IntC(0)), IntC(2))),
+                                Sub(Sub(v, Slice(IntC(1), Absent, Absent)), IntC(0)),
+                                IfExp(BoolC(TRUE), IntC(1), Sub(v, IntC(2)))}
+             [] vs = "Rec"  -> {IfExp(BoolC(TRUE), IntC(1), Sub(v, StrC("k9"))),
+                                IfExp(BoolC(TRUE), IntC(1), Attr(v, "k9"))}
+             [] OTHER -> {} :
+           i \in {j \in 1..Len(ns) : Visible(ns, j)}}
+
 Leaves(s, ns, ss) ==
     (IF s \in PackSorts THEN {} ELSE VarsOf(s, ns, ss)) \cup FieldRefs(s, ns, ss)
-      \cup ProjRefs(s, ns, ss)
+      \cup ProjRefs(s, ns, ss) \cup BadProjRefs(s, ns, ss)
       \cup (IF s = "SeqEvt" THEN {Name("ds")} ELSE {})
       \cup (IF s = "Int" THEN {IntC(1)} ELSE {})
       \cup (IF s = "Bool" /\ Enabled("True") THEN {BoolC(TRUE)} ELSE {})
@@ -120,7 +131,7 @@ NonLeaf(h) ==
       (IF s \in SeqSorts /\ Enabled("Where") THEN
           OpProd("Where", s, Elem(s), "Bool", r, ns, ss) ELSE {}) \cup
       (IF s \in SeqSorts /\ Enabled("SelectMany") THEN
-          UNION {OpProd("SelectMany", SeqOf(y), y, s, r, ns, ss) : y \in ObjSorts}
+          UNION {OpProd("SelectMany", SeqOf(y), y, s, r, ns, ss) : y \in ElemSorts \ {"Int"}}
        ELSE {}) \cup
       (* ---- packaging ---- *)
       (IF s = "Pair" /\ Enabled("Pack") THEN
@@ -290,7 +301,7 @@ Fill(t) ==
     ELSE LET i == CHOOSE j \in 1..Len(t.a) : HasHole(t.a[j]) /\ \A m \in 1..(j - 1) : ~HasHole(t.a[m])
          IN {[t EXCEPT !.a[i] = c] : c \in Fill(t.a[i])}
 
-RootSorts == CASE Fam \in {"idx", "chain", "chain1"} -> {"SeqInt"}
+RootSorts == CASE Fam \in {"idx", "chain", "chain1", "chainx"} -> {"SeqInt"}
                [] Fam \in {"agg"} -> {"SeqInt", "Int"}
                [] Fam \in {"meth", "md", "md1"} -> {"SeqInt", "SeqJet", "SeqEvt", "SeqTrk", "Int"}
                [] OTHER -> {"SeqInt", "SeqJet", "Int"}
